@@ -29,8 +29,15 @@ def run_check(prop, tree):
     r = sh(os.path.join(VERIF, "check"), prop, "--tier", "quick", cwd=VERIF, env=env)
     sigs = set(re.findall(r"signature=(\{.*?\}) detail", r.stdout))
     n = len(re.findall(r"^VIOLATION ", r.stdout, re.M))
+    counts = {}
+    for f in glob.glob(os.path.join(out, "replays", prop, "*.json")):
+        try:
+            v = json.load(open(f))["violation"]
+            counts[json.dumps(v.get("signature"), sort_keys=True)] = v.get("total_count", v.get("count_in_worker", 1)) or 1
+        except Exception:
+            pass
     subprocess.run(["rm", "-rf", out])
-    return r.returncode, sigs, n, r.stdout[-600:] + r.stderr[-300:]
+    return r.returncode, sigs, n, r.stdout[-600:] + r.stderr[-300:], counts
 
 
 def main():
@@ -59,9 +66,14 @@ def main():
                 if key not in baseline:
                     baseline[key] = run_check(prop, wt)
                 sh("git", "-C", wt, "apply", patch)
-                rc, sigs, n, tail = run_check(prop, wt)
-                brc, bsigs, bn, _ = baseline[key]
+                rc, sigs, n, tail, counts = run_check(prop, wt)
+                brc, bsigs, bn, _, bcounts = baseline[key]
                 new = sigs - bsigs
+                # on an old base the tree itself may show the same coarse signature (defects repaired
+                # since): then a clear rise in how often that signature occurs counts as well
+                more = [k for k, c in counts.items() if c >= bcounts.get(k, 0) * 1.3 + 5]
+                if not new and more:
+                    new = set("more-of:" + k for k in more)
                 caught = (rc == 1) and (bool(new) or n > bn)
                 if not caught and base == head and m["confirmed"]["base_commit"] != head:
                     # a later repair in /repo may have neutralised the seeded change on HEAD: judge it on
